@@ -14,11 +14,6 @@ import (
 	"time"
 )
 
-// VerifRunnable is a runnable that only carries the identity the harness gave it.
-type VerifRunnable struct{ ID int }
-
-func (r *VerifRunnable) Run() error { return nil }
-
 // ---------------------------------------------------------------------------------------------
 // hashed hierarchical wheel
 
@@ -56,8 +51,10 @@ func (v *VerifWheel) StepAdd() bool {
 	select {
 	case node := <-t.pendingAdd:
 		// verif:mirror-begin wheel-add
-		node.deadline += t.tickTime + node.period
-		t.addNode(node)
+		if !t.isCancelled(node) { // else cancelled before the worker saw the start request
+			node.deadline += t.tickTime + node.period
+			t.addNode(node)
+		}
 		// verif:mirror-end
 		return true
 	default:
